@@ -23,6 +23,9 @@ use verif_harness::{Cfg, r#gen::Rng, guarded, out::Out, out::hex, silence_panics
 // independent reference: RFC 4648 section 4
 // ---------------------------------------------------------------------------------------------
 
+/// Table 1 of RFC 4648, written out here: the oracle never looks at the crate's tables
+const RFC_ALPHABET: &[u8; 64] = b"ABCDEFGHIJKLMNOPQRSTUVWXYZabcdefghijklmnopqrstuvwxyz0123456789+/";
+
 fn rfc_alphabet() -> Vec<u8> {
     let mut a: Vec<u8> = Vec::new();
     a.extend(b'A'..=b'Z');
@@ -30,6 +33,7 @@ fn rfc_alphabet() -> Vec<u8> {
     a.extend(b'0'..=b'9');
     a.push(b'+');
     a.push(b'/');
+    assert_eq!(&a[..], &RFC_ALPHABET[..], "the two spellings of the RFC alphabet in the harness differ");
     a
 }
 
@@ -77,7 +81,8 @@ impl Read for SchedReader {
     fn read(&mut self, buf: &mut [u8]) -> std::io::Result<usize> {
         self.ncalls += 1;
         if self.fail_at == Some(self.ncalls - 1) {
-            return Err(std::io::Error::from(std::io::ErrorKind::WouldBlock));
+            let kinds = [std::io::ErrorKind::WouldBlock, std::io::ErrorKind::TimedOut, std::io::ErrorKind::Other, std::io::ErrorKind::UnexpectedEof];
+            return Err(std::io::Error::from(kinds[self.ncalls % kinds.len()]));
         }
         let max = match self.sched.get(self.call) {
             None if self.tail == 0 => usize::MAX,
@@ -182,20 +187,39 @@ impl Write for SchedSink {
     }
 }
 
+thread_local! {
+    /// what a further `write` did after an inner error (harness bookkeeping, drained into the histogram)
+    static REUSE: std::cell::RefCell<Vec<&'static str>> = const { std::cell::RefCell::new(Vec::new()) };
+}
+
 /// run the encoder over the sink; the run ends at the first I/O error. Returns (outcome, what ARRIVED in the sink)
 fn run_encoder_sink(spec: &SinkSpec, ops: &[Op]) -> (EncOut, Vec<u8>) {
     let arrived = std::rc::Rc::new(std::cell::RefCell::new(Vec::new()));
     let sink = SchedSink { arrived: arrived.clone(), spec: spec.clone(), call: 0 };
+    let reuse = std::cell::RefCell::new(None::<&'static str>);
     let r = guarded(|| -> std::io::Result<()> {
         let mut enc = Base64Encoder::new(sink);
         for op in ops {
-            match op {
-                Op::Write(c) => enc.write_all(c)?,
-                Op::Flush => enc.flush()?,
+            let r = match op {
+                Op::Write(c) => enc.write_all(c),
+                Op::Flush => enc.flush(),
+            };
+            if let Err(e) = r {
+                // out of scope (recorded in the histogram only): the encoder used on after an inner error
+                let again = guarded(|| enc.write(&[0u8]).is_ok());
+                *reuse.borrow_mut() = Some(match again {
+                    Err(()) => "panic",
+                    Ok(true) => "ok",
+                    Ok(false) => "error",
+                });
+                return Err(e);
             }
         }
         enc.finish().map(|_| ())
     });
+    if let Some(k) = *reuse.borrow() {
+        REUSE.with(|c| c.borrow_mut().push(k));
+    }
     let got = arrived.borrow().clone();
     match r {
         Err(()) => (EncOut::Panic, got),
@@ -231,6 +255,10 @@ enum Dst {
     ToEnd,
     /// `Read::read_to_string`
     ToString,
+    /// `Read::read_exact` for the number of bytes the text can hold, then `read_to_end` for the rest
+    Exact,
+    /// the `Read::bytes()` iterator to its end
+    Bytes,
 }
 
 impl Dst {
@@ -239,6 +267,8 @@ impl Dst {
             Dst::Sizes(p) => json!(p),
             Dst::ToEnd => json!("read_to_end"),
             Dst::ToString => json!("read_to_string"),
+            Dst::Exact => json!("read_exact"),
+            Dst::Bytes => json!("bytes"),
         }
     }
 }
@@ -263,20 +293,64 @@ impl<R: Read> Read for Spy<R> {
     }
 }
 
+/// records what every call on the underlying reader delivered: `k` for `Ok(k)`, `k >= 1`; an end-of-input
+/// `Ok(0)` as 4 (any positive maximum delivers nothing there); `Interrupted` as 0
+struct Recorder<R> {
+    inner: R,
+    rec: std::rc::Rc<std::cell::RefCell<Vec<usize>>>,
+}
+
+impl<R: Read> Read for Recorder<R> {
+    fn read(&mut self, buf: &mut [u8]) -> std::io::Result<usize> {
+        let r = self.inner.read(buf);
+        self.rec.borrow_mut().push(match &r {
+            Ok(0) => 4,
+            Ok(k) => *k,
+            Err(_) => 0,
+        });
+        r
+    }
+}
+
 /// `Sizes`: read until end of input (a non-empty buffer gets `Ok(0)`), an error or a panic; then `extra` further
 /// reads (what the decoder does after the end). `ToEnd` / `ToString`: one call of the std method, every `read`
 /// call it makes recorded.
-fn run_decoder(text: &[u8], sched: &Sched, dst: &Dst, extra: usize) -> DecRun {
-    let dec =
-        Base64Decoder::new(SchedReader { data: text.to_vec(), pos: 0, sched: sched.0.clone(), tail: sched.1, call: 0, fail_at: None, ncalls: 0 });
+fn run_decoder(text: &[u8], sched: &Sched, dst: &Dst, extra: usize, exact_len: usize) -> DecRun {
+    let reader = SchedReader { data: text.to_vec(), pos: 0, sched: sched.0.clone(), tail: sched.1, call: 0, fail_at: None, ncalls: 0 };
+    run_decoder_over(reader, text.len(), dst, extra, exact_len)
+}
+
+/// the same over any underlying reader
+fn run_decoder_over<R: Read>(reader: R, text_len: usize, dst: &Dst, extra: usize, exact_len: usize) -> DecRun {
+    let dec = Base64Decoder::new(reader);
     match dst {
-        Dst::Sizes(pattern) => run_sizes(dec, text.len(), pattern, extra),
-        Dst::ToEnd | Dst::ToString => {
+        Dst::Sizes(pattern) => run_sizes(dec, text_len, pattern, extra),
+        Dst::ToEnd | Dst::ToString | Dst::Exact | Dst::Bytes => {
             let mut spy = Spy { inner: dec, sizes: vec![], trace: vec![] };
             let mut bytes: Vec<u8> = Vec::new();
             let r = guarded(|| {
                 if *dst == Dst::ToEnd {
                     spy.read_to_end(&mut bytes).map(|_| ())
+                } else if *dst == Dst::Exact {
+                    // whole groups only: what a caller that trusts the length of the text would ask for
+                    let mut head = vec![0u8; exact_len];
+                    let r = spy.read_exact(&mut head);
+                    if r.is_ok() {
+                        bytes.extend_from_slice(&head);
+                    }
+                    r.and_then(|_| spy.read_to_end(&mut bytes).map(|_| ()))
+                } else if *dst == Dst::Bytes {
+                    let mut r = Ok(());
+                    for b in (&mut spy).bytes() {
+                        match b {
+                            Ok(b) => bytes.push(b),
+                            Err(e) => {
+                                r = Err(e);
+                                break;
+                            }
+                        }
+                    }
+                    r
                 } else {
                     let mut text = String::new();
                     let r = spy.read_to_string(&mut text).map(|_| ());
@@ -426,6 +500,9 @@ impl Ctx {
     fn enc_sink_case(&mut self, kind: &str, spec: &SinkSpec, ops: &[Op]) {
         let data: Vec<u8> = ops.iter().flat_map(|o| if let Op::Write(c) = o { c.clone() } else { vec![] }).collect();
         let (got, arrived) = run_encoder_sink(spec, ops);
+        for k in REUSE.with(|c| std::mem::take(&mut *c.borrow_mut())) {
+            self.out.hist(&format!("encsink:write-after-error={k}(out of scope)"));
+        }
         let got_s = match &got {
             EncOut::Ok(_) => format!("ok {}", hex(&arrived)),
             EncOut::IoErr => format!("ioerr {}", hex(&arrived)),
@@ -490,6 +567,8 @@ impl Ctx {
             1 => format!("{{\"data\":{},\"size\":[{h},{w}],\"channels\":{channels}}}", serde_json::to_string(&text_s).unwrap()),
             _ => format!("{{\"channels\":{channels},\"data\":{},\"ignored\":[1,2],\"size\":[{h},{w}]}}", serde_json::to_string(&text_s).unwrap()),
         };
+        let mut accessors_agree = true;
+        let mut serialized: Option<Vec<u8>> = None;
         let r = guarded(|| -> Result<(usize, usize, Vec<u8>), String> {
             let img: surf_n_term::Image = if variant % 2 == 0 {
                 serde_json::from_str(&doc).map_err(|e| e.to_string())?
@@ -497,11 +576,24 @@ impl Ctx {
                 let v: Value = serde_json::from_str(&doc).map_err(|e| e.to_string())?;
                 serde_json::from_value(v).map_err(|e| e.to_string())?
             };
+            // pixels read from the backing slice with the offsets computed here from the public shape fields
+            let sh = img.shape();
+            let raw = img.data();
             let mut px = Vec::new();
-            for c in img.data() {
-                px.extend([c.red(), c.green(), c.blue(), c.alpha()]);
+            let mut agree = true;
+            for row in 0..sh.height {
+                for col in 0..sh.width {
+                    let c = raw[sh.start + row * sh.row_stride + col * sh.col_stride];
+                    px.extend([c.red(), c.green(), c.blue(), c.alpha()]);
+                    agree &= img.get(surf_n_term::Position { row, col }) == Some(&c);
+                }
             }
-            Ok((img.height(), img.width(), px))
+            agree &= img.iter().count() == sh.height * sh.width && img.height() == sh.height && img.width() == sh.width;
+            accessors_agree = agree;
+            // the encoder's client: `Serialize for Image` (one `write_all` of four bytes per pixel, `finish`)
+            let v = serde_json::to_value(&img).map_err(|e| format!("serialize: {e}"))?;
+            serialized = v["data"].as_str().map(|t| t.as_bytes().to_vec());
+            Ok((sh.height, sh.width, px))
         });
         let got_s = match &r {
             Err(()) => "panic".to_string(),
@@ -514,6 +606,11 @@ impl Ctx {
         self.out.hist(&format!("image:{}", got_s.split(' ').next().unwrap_or("")));
         if self.seen.insert(req.clone()) {
             self.out.corr(&req, &got_s);
+        }
+        // the crate's accessors used nowhere above, cross-checked against the raw reading (a disagreement is a
+        // broken tie, reported as a correspondence mismatch: the model always answers `agree`)
+        if matches!(r, Ok(Ok(_))) && (!accessors_agree || self.seen.insert("selfcheck".to_string())) {
+            self.out.corr("c14 selfcheck image-accessors", if accessors_agree { "agree" } else { "Surface::get/iter/height/width disagree with the backing data" });
         }
         let input = json!({"op": "image", "h": h, "w": w, "channels": channels, "text": hex(text), "plain": plain.map(hex), "variant": variant});
         if matches!(r, Err(())) {
@@ -536,6 +633,14 @@ impl Ctx {
                         3 => want.extend([p[0], p[1], p[2], 255]),
                         _ => want.extend([p[0], p[1], p[2], p[3]]),
                     }
+                }
+                if r == Ok(Ok((h, w, want.clone()))) && serialized != Some(rfc_encode(&want)) {
+                    self.out.fail(
+                        "serialising an image does not give the RFC 4648 text of its RGBA bytes in the data field",
+                        input.clone(),
+                        json!(hex(&rfc_encode(&want)).chars().take(200).collect::<String>()),
+                        json!(serialized.as_deref().map(hex).unwrap_or("no data field".to_string()).chars().take(200).collect::<String>()),
+                    );
                 }
                 if r != Ok(Ok((h, w, want.clone()))) {
                     self.out.fail(
@@ -600,7 +705,8 @@ impl Ctx {
 
     /// `plain`: `Some(d)` when `text` is the RFC encoding of `d` (round-trip obligation), `None` for arbitrary text
     fn dec_case(&mut self, kind: &str, text: &[u8], plain: Option<&[u8]>, sched: &Sched, dst: &Dst) {
-        let run = run_decoder(text, sched, dst, 2);
+        let exact_len = plain.map(|d| d.len()).unwrap_or(text.len() / 4 * 3);
+        let run = run_decoder(text, sched, dst, 2, exact_len);
         let req = format!("c14 dec {} {} {} {}", hex(text), csv(&sched.0), sched.1, csv(&run.sizes));
         let ans = if run.trace.is_empty() { "-".to_string() } else { run.trace.join(",") };
         self.out.case(&req, !text.is_empty());
@@ -618,6 +724,69 @@ impl Ctx {
             self.out.corr(&req, &ans);
         }
         let input = json!({"op": "dec", "text": hex(text), "plain": plain.map(hex), "sched": sched.0, "tail": sched.1, "sizes": dst.json()});
+        self.judge_dec(text, plain, &run, input, &ans);
+        if self.out.evaluations % 1013 == 1 {
+            self.out.sample(json!({"request": req.chars().take(300).collect::<String>(), "impl": ans.chars().take(300).collect::<String>()}));
+        }
+    }
+
+    /// The decoder over readers that are NOT the harness' schedule reader: `&[u8]`, `Cursor`, `BufReader` with a
+    /// tiny buffer, `Chain`, `VecDeque`, `Take`, and the crate's own `IOQueue` filled chunk by chunk. Every call the
+    /// decoder makes on the reader is recorded; the recorded per-call amounts are the schedule of the model
+    /// request, so the run is compared call by call with the model, and judged by the same oracle.
+    fn foreign_case(&mut self, kind: usize, text: &[u8], plain: Option<&[u8]>, dst: &Dst, rng: &mut Rng) {
+        use std::io::{BufReader, Cursor};
+        let rec = std::rc::Rc::new(std::cell::RefCell::new(Vec::<usize>::new()));
+        let exact_len = plain.map(|d| d.len()).unwrap_or(text.len() / 4 * 3);
+        let cut = rng.below(text.len() as u64 + 1) as usize;
+        let (name, run) = match kind % 7 {
+            0 => ("reader=slice", run_decoder_over(Recorder { inner: text, rec: rec.clone() }, text.len(), dst, 2, exact_len)),
+            1 => ("reader=cursor", run_decoder_over(Recorder { inner: Cursor::new(text.to_vec()), rec: rec.clone() }, text.len(), dst, 2, exact_len)),
+            2 => {
+                let cap = 1 + rng.below(7) as usize;
+                ("reader=bufreader", run_decoder_over(Recorder { inner: BufReader::with_capacity(cap, Cursor::new(text.to_vec())), rec: rec.clone() }, text.len(), dst, 2, exact_len))
+            }
+            3 => ("reader=chain", run_decoder_over(Recorder { inner: (&text[..cut]).chain(&text[cut..]), rec: rec.clone() }, text.len(), dst, 2, exact_len)),
+            4 => {
+                // a ring buffer that wraps: its `read` stops at the wrap
+                let mut q = std::collections::VecDeque::with_capacity(text.len() + 1);
+                for _ in 0..cut {
+                    q.push_back(0u8);
+                }
+                for _ in 0..cut {
+                    q.pop_front();
+                }
+                q.extend(text.iter().copied());
+                ("reader=vecdeque", run_decoder_over(Recorder { inner: q, rec: rec.clone() }, text.len(), dst, 2, exact_len))
+            }
+            5 => ("reader=take", run_decoder_over(Recorder { inner: Cursor::new(text.to_vec()).take(text.len() as u64), rec: rec.clone() }, text.len(), dst, 2, exact_len)),
+            _ => {
+                // the crate's queue: one chunk per write + flush, no empty chunk in the middle
+                let mut q = surf_n_term::common::IOQueue::new();
+                let mut at = 0;
+                while at < text.len() {
+                    let k = (1 + rng.below(9) as usize).min(text.len() - at);
+                    q.write_all(&text[at..at + k]).unwrap();
+                    q.flush().unwrap();
+                    at += k;
+                }
+                ("reader=ioqueue", run_decoder_over(Recorder { inner: q, rec: rec.clone() }, text.len(), dst, 2, exact_len))
+            }
+        };
+        let sched: Vec<usize> = rec.borrow().clone();
+        let req = format!("c14 dec {} {} 0 {}", hex(text), csv(&sched), csv(&run.sizes));
+        let ans = if run.trace.is_empty() { "-".to_string() } else { run.trace.join(",") };
+        self.out.case(&req, !text.is_empty());
+        self.out.hist(&format!("dec:{name}"));
+        if self.seen.insert(req.clone()) {
+            self.out.corr(&req, &ans);
+        }
+        let input = json!({"op": "dec", "text": hex(text), "plain": plain.map(hex), "sched": sched, "tail": 0, "sizes": dst.json(), "reader": name});
+        self.judge_dec(text, plain, &run, input, &ans);
+    }
+
+    /// the property, applied to one run of the decoder (whatever the reader and the way of reading)
+    fn judge_dec(&mut self, text: &[u8], plain: Option<&[u8]>, run: &DecRun, input: Value, ans: &str) {
         if run.end == End::Panic {
             self.out.fail("Base64Decoder panics", input, json!("no panic"), json!(ans));
         } else if let Some(d) = plain {
@@ -638,9 +807,6 @@ impl Ctx {
                 json!("an error before end of input"),
                 json!(format!("{:?} {}", run.end, hex(&run.bytes))),
             );
-        }
-        if self.out.evaluations % 1013 == 1 {
-            self.out.sample(json!({"request": req.chars().take(300).collect::<String>(), "impl": ans.chars().take(300).collect::<String>()}));
         }
     }
 }
@@ -688,6 +854,10 @@ fn size_patterns(rng: &mut Rng, thorough: bool) -> Vec<(&'static str, Dst)> {
         ("dst=4096", Dst::Sizes(vec![4096])),
         ("dst=read_to_end", Dst::ToEnd),
         ("dst=read_to_string", Dst::ToString),
+        ("dst=read_exact", Dst::Exact),
+        ("dst=bytes", Dst::Bytes),
+        ("dst=0,1", Dst::Sizes(vec![0, 1])),
+        ("dst=0,0,5", Dst::Sizes(vec![0, 0, 5])),
     ];
     // at most 8 entries, the last one non-empty (the cap of `run_sizes` relies on it)
     v.push(("dst=random", Dst::Sizes((0..7).map(|_| *rng.pick(&[0usize, 1, 2, 3, 4, 5, 7, 20, 62, 63, 64, 65, 66, 130])).chain([1]).collect())));
@@ -854,6 +1024,8 @@ fn replay(ctx: &mut Ctx, input: &Value) {
             let dst = match input["sizes"].as_str() {
                 Some("read_to_end") => Dst::ToEnd,
                 Some("read_to_string") => Dst::ToString,
+                Some("read_exact") => Dst::Exact,
+                Some("bytes") => Dst::Bytes,
                 _ => {
                     let mut pattern = usizes(&input["sizes"]);
                     if pattern.is_empty() {
@@ -897,7 +1069,7 @@ fn replay(ctx: &mut Ctx, input: &Value) {
     }
 }
 
-const RULE: &str = "encoder: every length 0..=L (L = 200 quick / 400 thorough) of random bytes plus all-sextet / all-byte covering data, each in the partitions whole, 1, 2, 4 and random cuts (empty chunks included), with and without flush() calls (after every write, at random points), each over a Vec and over inner writers with short writes {1, 2, 3, 4, 5 bytes per call for ever, random 1..5, random with Interrupted, a writer that becomes full} - judged on the text that ARRIVED in the writer; decoder round trip: RFC text of the same data x reader schedules {unrestricted, 1, 2, 3, 4, 5, 7, 64 per call for ever, random 1..5 per call, random with Interrupted} x destinations {read sizes 1, 2, 3, 63, 64, 65, 4096, random mix incl. 0; read_to_end; read_to_string on UTF-8 data} (every read call std makes is recorded and compared) (full product up to length 400, two data per white-box length 0-4, 46-50, 62-67, 83-86, 93-97, 125-128, 189-192; a rotating quarter of the product for the long random data of the thorough tier); malformed: random bytes, alphabet-only text of every length mod 4, stray padding, damaged valid text, padded groups in mid-stream (reaches buffer sizes 61, 62, 64); client path: image documents (serde_json, three field orders, from_str / from_value) whose data text has k whole groups for every k in 0..=130 (400 thorough) + 1..3 stray symbols with size fields matching the whole groups (must be rejected), the well-formed ones (pixels compared with the raw bytes), wrong sizes, cut texts; transient WouldBlock of the reader: no panic, error not swallowed (no correspondence; out of the property's scope); non-trivial = non-empty data/text; distinct by request line";
+const RULE: &str = "encoder: every length 0..=L (L = 200 quick / 400 thorough) of random bytes plus all-sextet / all-byte covering data, each in the partitions whole, 1, 2, 4 and random cuts (empty chunks included), with and without flush() calls (after every write, at random points), each over a Vec and over inner writers with short writes {1, 2, 3, 4, 5 bytes per call for ever, random 1..5, random with Interrupted, a writer that becomes full} - judged on the text that ARRIVED in the writer; decoder round trip: RFC text of the same data x reader schedules {unrestricted, 1, 2, 3, 4, 5, 7, 64 per call for ever, random 1..5 per call, random with Interrupted} x destinations {read sizes 1, 2, 3, 63, 64, 65, 4096, zero-length buffers first, random mix incl. 0; read_to_end; read_to_string on UTF-8 data; read_exact + read_to_end; bytes()}; the same over foreign readers {&[u8], Cursor, BufReader with a 1..7 byte buffer, Chain, wrapped VecDeque, Take, the crate's IOQueue filled chunk by chunk} whose per-call deliveries are recorded and become the model's schedule (every read call std makes is recorded and compared) (full product up to length 400, two data per white-box length 0-4, 46-50, 62-67, 83-86, 93-97, 125-128, 189-192; a rotating quarter of the product for the long random data of the thorough tier); malformed: random bytes, alphabet-only text of every length mod 4, stray padding, damaged valid text, padded groups in mid-stream (reaches buffer sizes 61, 62, 64); client path: image documents (serde_json, three field orders, from_str / from_value) whose data text has k whole groups for every k in 0..=130 (400 thorough) + 1..3 stray symbols with size fields matching the whole groups (must be rejected), the well-formed ones (pixels compared with the raw bytes), wrong sizes, cut texts; transient WouldBlock of the reader: no panic, error not swallowed (no correspondence; out of the property's scope); non-trivial = non-empty data/text; distinct by request line";
 
 fn main() {
     let cfg = Cfg::from_env();
@@ -974,6 +1146,16 @@ fn main() {
                 ctx.dec_case(&format!("{sk},{pk}"), &text, Some(data), sched, pat);
             }
         }
+        // other readers than the schedule reader, each with two ways of reading
+        for kind in 0..7 {
+            for _ in 0..2 {
+                let (_, pat) = rng.pick(&pats).clone();
+                if pat == Dst::ToString && std::str::from_utf8(data).is_err() {
+                    continue;
+                }
+                ctx.foreign_case(kind, &text, Some(data), &pat, &mut rng);
+            }
+        }
         rot += 1;
     }
 
@@ -995,6 +1177,9 @@ fn main() {
             pat = Dst::ToEnd; // an InvalidData error of `read_to_string` would hide a missing decode error
         }
         ctx.dec_case(kind, &text, None, &sched, &pat);
+        if i % 4 == 0 {
+            ctx.foreign_case(rng.below(7) as usize, &text, None, &pat, &mut rng);
+        }
     }
     // the crate's client of the decoder: image documents. k whole groups (every k up to K: the decoder refills
     // 21 groups at a time, so every multiple of 21 and its neighbours are there) + r stray symbols, size fields
